@@ -28,6 +28,7 @@ type c11Case struct {
 func init() {
 	register(&Prop{ID: "C11", Run: runC11, Replay: map[string]func(*Env, json.RawMessage){
 		"key-spelling": func(e *Env, raw json.RawMessage) { c11KeyEval(e, decode[c11KeyCase](raw)) },
+		"look-alike":   func(e *Env, raw json.RawMessage) { c11LookEval(e, decode[c11Look](raw)) },
 		"variant": func(e *Env, raw json.RawMessage) {
 			c := decode[c11Case](raw)
 			c11Eval(e, &c, mc.NewReplay(c.Choices), true)
@@ -260,6 +261,33 @@ func c11Bases(p *chordlang.SLR, terms []string, maxTok int, syllable bool) [][]c
 	return out
 }
 
+type c11Look struct {
+	Char  string `json:"character"`
+	ASCII string `json:"ascii"`
+	Mode  string `json:"mode"`
+}
+
+func c11LookEval(e *Env, l c11Look) {
+	tpl := map[string]string{"syllable": "E%s[1] C/F%s[1]", "degree": "3%s[1] 1/5%s[1]"}[l.Mode]
+	uni := fmt.Sprintf(tpl, l.Char, l.Char)
+	asc := fmt.Sprintf(tpl, l.ASCII, l.ASCII)
+	e.R.Eval(1)
+	// is the character read as an accidental at all? (otherwise it is a symbol character and none of C11's business)
+	tree := implParse(uni)
+	if !(tree.Accepted && len(tree.Tree) == 2 && tree.Tree[0].Acc == l.Char && !tree.Tree[0].HasSym) {
+		return
+	}
+	key := "C"
+	if l.Mode == "degree" {
+		key = ""
+	}
+	a := runConv("cli", asc, l.Mode, key)
+	u := runConv("cli", uni, l.Mode, key)
+	if u.Err == "" && (a.Err != "" || !bytes.Equal(a.Out, u.Out)) {
+		e.R.Fail(ev.Fail{Class: "C11/output-differs/accepted-accidental-character", Msg: fmt.Sprintf("text conv %s: the lexer reads %q as an accidental and %q is accepted, but it is not converted like %q:\n%s", l.Mode, l.Char, uni, asc, u.Out), Kind: "look-alike", Case: l})
+	}
+}
+
 // c11KeySpelling: a key written with a Unicode accidental, wherever a key can be written, is
 // either refused or means exactly what the ASCII spelling means ("an accidental that is accepted is honoured").
 type c11KeyCase struct {
@@ -384,6 +412,23 @@ func runC11(e *Env) {
 		e.R.NonTrivialN(1)
 		e.R.Trace(1)
 	})
+	// any character the lexer takes for an accidental must be honoured by the converters
+	type lk struct{ ch, ascii string }
+	var looks []lk
+	for _, s := range []string{"♯", "＃", "﹟", "⌗", "𝄰", "𝄪"} {
+		looks = append(looks, lk{s, "#"})
+	}
+	for _, s := range []string{"♭", "ｂ", "𝄬", "𝄫", "ᵇ"} {
+		looks = append(looks, lk{s, "b"})
+	}
+	var lookN int
+	for _, l := range looks {
+		for _, mode := range []string{"syllable", "degree"} {
+			lookN++
+			c11LookEval(e, c11Look{l.ch, l.ascii, mode})
+		}
+	}
+	e.R.AddPart(ev.Part{Name: "look-alike-accidentals", Enumerated: "11 characters that look like a sharp or a flat (♯ ＃ ﹟ ⌗ 𝄰 𝄪 / ♭ ｂ 𝄬 𝄫 ᵇ) on a root and on a bass, in both notations: where the parser reports the character as an accidental, text conv refuses it or converts it like # / b", Executions: int64(lookN), Exhaustive: true})
 	e.R.AddPart(ev.Part{Name: "unicode-accidental-in-keys", Enumerated: "10 keys with an accidental x 7 doors a key can come through (text metadata in both notations, --key on text conv / write / info key describe / info key conv, key: in the instances document): the Unicode spelling is refused or gives the output of the ASCII spelling", Executions: int64(len(kc)), Exhaustive: true})
 	if len(bases) > 0 {
 		b := bases[len(bases)-4]
